@@ -17,6 +17,7 @@ import (
 	"go/parser"
 	"go/token"
 	"os"
+	"os/exec"
 	"path/filepath"
 	"regexp"
 	"sort"
@@ -80,6 +81,7 @@ func main() {
 	goroot := flag.String("goroot", "/opt/veriftools/go1.26.8", "GOROOT of the toolchain used for simulation builds")
 	patch := flag.String("patch", "", "directory with os_zz_dsim.go.txt and inject/")
 	out := flag.String("out", "", "output directory (overlay.json is written there)")
+	canary := flag.String("canary", "", "unified diff (relative to the repo root) applied to overlay copies of the files it touches: a deliberate property-breaking change for sensitivity self-tests; /repo itself is not modified")
 	flag.Parse()
 	if *patch == "" || *out == "" {
 		die("need -patch and -out")
@@ -147,6 +149,17 @@ func main() {
 	// 3. rewrites of repo files, computed from the current tree
 	cur := map[string][]byte{}
 	var order []string
+	if *canary != "" {
+		files, err := applyCanary(*repo, *canary, filepath.Join(*out, "canary"))
+		if err != nil {
+			die("canary %s: %v", *canary, err)
+		}
+		for rel, b := range files {
+			cur[rel] = b
+			order = append(order, rel)
+		}
+		sort.Strings(order)
+	}
 	for _, rw := range rewrites() {
 		if _, ok := cur[rw.file]; !ok {
 			b, err := os.ReadFile(filepath.Join(*repo, rw.file))
@@ -171,6 +184,50 @@ func main() {
 
 	ob, _ := json.MarshalIndent(map[string]any{"Replace": replace}, "", " ")
 	writeIfChanged(filepath.Join(*out, "overlay.json"), ob)
+}
+
+// applyCanary copies the files named in the diff into dir and applies the diff there with patch(1).
+func applyCanary(repo, diff, dir string) (map[string][]byte, error) {
+	b, err := os.ReadFile(diff)
+	if err != nil {
+		return nil, err
+	}
+	os.RemoveAll(dir)
+	var rels []string
+	for _, line := range strings.Split(string(b), "\n") {
+		if strings.HasPrefix(line, "+++ b/") {
+			rels = append(rels, strings.TrimSpace(strings.TrimPrefix(line, "+++ b/")))
+		}
+	}
+	if len(rels) == 0 {
+		return nil, fmt.Errorf("no '+++ b/<path>' headers")
+	}
+	for _, rel := range rels {
+		src, err := os.ReadFile(filepath.Join(repo, rel))
+		if err != nil {
+			return nil, err
+		}
+		dst := filepath.Join(dir, rel)
+		if err := os.MkdirAll(filepath.Dir(dst), 0o755); err != nil {
+			return nil, err
+		}
+		if err := os.WriteFile(dst, src, 0o644); err != nil {
+			return nil, err
+		}
+	}
+	cmd := exec.Command("patch", "-p1", "--no-backup-if-mismatch", "-s", "-d", dir, "-i", diff)
+	if outp, err := cmd.CombinedOutput(); err != nil {
+		return nil, fmt.Errorf("patch failed: %v\n%s", err, outp)
+	}
+	res := map[string][]byte{}
+	for _, rel := range rels {
+		nb, err := os.ReadFile(filepath.Join(dir, rel))
+		if err != nil {
+			return nil, err
+		}
+		res[rel] = nb
+	}
+	return res, nil
 }
 
 // writeIfChanged keeps mtimes stable so the go build cache stays warm.
